@@ -222,8 +222,8 @@ class Statement(object):
         max_size += 2
         min_size += 2
 
-        if force_16_bit and max_size > min_size:
-            min_size = max_size
+        if force_16_bit:
+            min_size = max_size = max(min_size, max_size)
 
         if positive_range:
             if min_size <= 127 and max_size <= 127:
